@@ -626,9 +626,9 @@ func lbSCC(f *lpFunc) [][]*ssa.BasicBlock {
 	return out
 }
 
-// lbDerives: v is cur or is read out of the node cur points to.
-func lbDerives(v ssa.Value, cur ssa.Value, d int) bool {
-	if v == cur {
+// lbDerives: v is the current node (isCur) or is read out of it.
+func lbDerives(v ssa.Value, isCur func(ssa.Value) bool, d int) bool {
+	if isCur(v) {
 		return true
 	}
 	if d > 8 {
@@ -636,15 +636,15 @@ func lbDerives(v ssa.Value, cur ssa.Value, d int) bool {
 	}
 	switch x := v.(type) {
 	case *ssa.UnOp:
-		return lbDerives(x.X, cur, d+1)
+		return lbDerives(x.X, isCur, d+1)
 	case *ssa.FieldAddr:
-		return lbDerives(x.X, cur, d+1)
+		return lbDerives(x.X, isCur, d+1)
 	case *ssa.IndexAddr:
-		return lbDerives(x.X, cur, d+1)
+		return lbDerives(x.X, isCur, d+1)
 	case *ssa.MakeInterface:
-		return lbDerives(x.X, cur, d+1)
+		return lbDerives(x.X, isCur, d+1)
 	case *ssa.ChangeInterface:
-		return lbDerives(x.X, cur, d+1)
+		return lbDerives(x.X, isCur, d+1)
 	}
 	return false
 }
@@ -817,12 +817,27 @@ func (A *lbAnalysis) descentLoop(fn *ssa.Function, f *lpFunc, comp []*ssa.BasicB
 			break
 		}
 	}
-	if cur == nil {
+	// the current node may live in a cell (a variable captured by a function
+	// literal): then the loop stores the read node into the cell before every
+	// back edge, nothing else writes the cell in the loop, and the read starts
+	// from a load of the cell.
+	var cell *ssa.Alloc
+	if cur == nil && len(latches) > 0 {
+		cell = lbNodeCell(comp, loaded, latches)
+	}
+	isCur := func(v ssa.Value) bool {
+		if cur != nil {
+			return v == ssa.Value(cur)
+		}
+		u, ok := v.(*ssa.UnOp)
+		return ok && u.Op == token.MUL && u.X == ssa.Value(cell)
+	}
+	if cur == nil && cell == nil {
 		return "the node that was read does not become the loop's current node on every back edge (the next iteration may read the same child again, or reads are made for each entry of one node)"
 	}
 	fromCur := false
 	for _, a := range call.Call.Args {
-		if lbDerives(a, cur, 0) {
+		if lbDerives(a, isCur, 0) {
 			fromCur = true
 		}
 	}
@@ -963,4 +978,78 @@ func (A *lbAnalysis) isDescent(fn *ssa.Function) bool {
 		return true
 	}
 	return A.mayLd[fn] && len(A.loopInfo(fn).ok) > 0
+}
+
+// lbNodeCell finds the cell holding the loop's current node: a local *mastNode
+// variable spilled to the heap, whose only store inside the loop stores the
+// node that was read, in a block every back edge passes through, and which no
+// function literal capturing it writes.
+func lbNodeCell(comp []*ssa.BasicBlock, loaded []ssa.Value, latches []*ssa.BasicBlock) *ssa.Alloc {
+	in := map[*ssa.BasicBlock]bool{}
+	for _, b := range comp {
+		in[b] = true
+	}
+	for _, b := range comp {
+		for _, ins := range b.Instrs {
+			st, ok := ins.(*ssa.Store)
+			if !ok {
+				continue
+			}
+			c, ok := st.Addr.(*ssa.Alloc)
+			if !ok || !isNodePtr(st.Val.Type()) {
+				continue
+			}
+			is := false
+			for _, l := range loaded {
+				if st.Val == l {
+					is = true
+				}
+			}
+			if !is {
+				continue
+			}
+			good := true
+			for _, l := range latches {
+				if b != l && !b.Dominates(l) {
+					good = false
+				}
+			}
+			if c.Referrers() == nil {
+				continue
+			}
+			for _, r := range *c.Referrers() {
+				switch x := r.(type) {
+				case *ssa.Store:
+					if x.Addr != ssa.Value(c) || (x != st && in[x.Block()]) {
+						good = false
+					}
+				case *ssa.UnOp, *ssa.DebugRef:
+				case *ssa.MakeClosure:
+					g, _ := x.Fn.(*ssa.Function)
+					for i, bnd := range x.Bindings {
+						if bnd != ssa.Value(c) || g == nil || i >= len(g.FreeVars) {
+							continue
+						}
+						fv := g.FreeVars[i]
+						if fv.Referrers() == nil {
+							continue
+						}
+						for _, rr := range *fv.Referrers() {
+							switch rr.(type) {
+							case *ssa.UnOp, *ssa.DebugRef:
+							default:
+								good = false // written or passed on inside the literal
+							}
+						}
+					}
+				default:
+					good = false
+				}
+			}
+			if good {
+				return c
+			}
+		}
+	}
+	return nil
 }
